@@ -202,3 +202,46 @@ func (v *VerifC08Node) SendInstallSnapshot(to uint64) (hasRecord bool, files []p
 	}
 	return true, tr.snapshots, stream
 }
+
+// HandleStreamTask is the apply worker handing a Stream task for replica `to`
+// to node.handleSnapshotTask, whatever the node is doing. accepted: the request
+// became the node's stream job (RunStream carries it out); reported: the request
+// was answered with a failure report to raft (node.reportSnapshotStatus). A
+// request must have exactly one of the two outcomes.
+func (v *VerifC08Node) HandleStreamTask(to uint64) (accepted bool, reported bool) {
+	v.n.handleSnapshotStatus = func(_ uint64, rid uint64, failed bool) {
+		if failed && rid == to {
+			reported = true
+		}
+	}
+	was := v.n.ss.streaming()
+	v.n.handleSnapshotTask(rsm.Task{Stream: true, ShardID: v.n.shardID, ReplicaID: to})
+	accepted = !was && v.n.ss.streaming()
+	return accepted, reported
+}
+
+// RunStream is the snapshot worker running the queued stream job with the given
+// sink, followed by the completion handling (streamDone, processStreamStatus).
+// It returns the replica the job was for.
+func (v *VerifC08Node) RunStream(sink pb.IChunkSink) (uint64, error) {
+	t, _, ok := v.n.ss.getStreamReq()
+	if !ok {
+		panic("verif: no stream job queued")
+	}
+	if err := v.n.stream(sink); err != nil {
+		return t.ReplicaID, err
+	}
+	v.n.streamDone()
+	v.n.processStreamStatus()
+	return t.ReplicaID, nil
+}
+
+// RemoveSnapshotFlagFile is node.removeSnapshotFlagFile, what engine.onSnapshotSaved
+// calls once the update carrying a received snapshot has been persisted.
+func (v *VerifC08Node) RemoveSnapshotFlagFile(index uint64) error {
+	return v.n.removeSnapshotFlagFile(index)
+}
+
+// ProcessOrphans is snapshotter.processOrphans, run by NodeHost.startShard before a
+// replica is (re)started.
+func (v *VerifC08Node) ProcessOrphans() error { return v.n.snapshotter.processOrphans() }
